@@ -53,7 +53,7 @@ the generated data, and write(decode(write(m))) == write(m); messages with a PDU
 second relation. Non-trivial = an attribute value containing an XML-special character or a list of >= 2 elements. \
 wellformed: batches of 200 such messages (drawn from the same strategy with a generator seeded from seed and batch index) through expat; every checked message counts as non-trivial; expat-available: one probe document (a missing python3/expat makes the run inconclusive). parsers: arbitrary \
 bytes, /repo/test-data/ca XML files and written messages under 0..6 XML-aware mutations into all six decoders; oracle = \
-no panic (accepted values are additionally written and walked). Writers: every message is also written with write_xml into a writer that takes 1-8 octets per call and through to_xml_string / to_xml_vec / to_xml_bytes; a claimed success must deliver exactly the octets write_xml puts into a Vec (an error from write_xml is accepted: base64 content goes through base64's EncoderWriter, which documents WriteZero under short writes).";
+no panic (accepted values are additionally written and walked). Writers: every message is also written with write_xml into a writer that takes 1-8 octets per call and a claimed success must deliver exactly the octets write_xml puts into a Vec (an error from write_xml is accepted: base64 content goes through base64's EncoderWriter, which documents WriteZero under short writes); what to_xml_string / to_xml_vec / to_xml_bytes write must parse back to the message as well.";
 
 //------------ plain-data specs ---------------------------------------------------
 
@@ -665,11 +665,12 @@ impl Built {
         v
     }
 
-    /// The same document through the other public writers - `write_xml` into a
-    /// writer that takes a few octets per call (a socket, a compressor), the
-    /// `to_xml_*` conveniences - must be the very octets `write_xml` puts into a
-    /// `Vec`; `write_xml` may report an error instead, it may not lose octets.
-    pub fn check_writers(&self, xml: &[u8]) -> CheckResult {
+    /// The other public writers: `write_xml` into a writer that takes a few
+    /// octets per call (a socket, a compressor) must deliver the very octets it
+    /// puts into a `Vec` (it may report an error instead, it may not lose
+    /// octets); what the `to_xml_*` conveniences write must parse back to the
+    /// message (`compare`: the message takes part in the equality relation).
+    pub fn check_writers(&self, xml: &[u8], compare: bool) -> CheckResult {
         struct Short {
             out: Vec<u8>,
             calls: usize,
@@ -722,8 +723,17 @@ impl Built {
             Built::Publisher(m) => (m.to_xml_string(), m.to_xml_vec()),
             Built::Repository(m) => (m.to_xml_string(), m.to_xml_vec()),
         })?;
-        ensure_sig!(s.as_bytes() == xml && v == xml, "c11:writers-differ",
-            "to_xml_string ({} octets) / to_xml_vec|bytes ({} octets) differ from write_xml ({} octets)", s.len(), v.len(), xml.len());
+        // The convenience writers are writers in their own right (they may, say, add an XML
+        // declaration): what they produce must parse back to the message, like write_xml's output.
+        for (how, bytes) in [("to_xml_string", s.as_bytes()), ("to_xml_vec / to_xml_bytes", v.as_slice())] {
+            if bytes == xml {
+                continue;
+            }
+            match self.decode_like(bytes) {
+                Ok(d) => ensure_sig!(!compare || d.same(self), "c11:writers-differ", "{} writes a document that parses back to a different message: {}", how, String::from_utf8_lossy(&bytes[..bytes.len().min(600)])),
+                Err(e) => return Err(Fail::sig("c11:writers-differ", format!("{} writes a document that does not parse back ({}): {}", how, e, String::from_utf8_lossy(&bytes[..bytes.len().min(600)])))),
+            }
+        }
         Ok(())
     }
 
@@ -899,7 +909,7 @@ fn run_roundtrip(m: &Msg, obs: &mut Obs) -> CheckResult {
     obs.nontrivial_if(t.special || t.list2);
     let built = build(m)?;
     let xml = built.write();
-    built.check_writers(&xml)?;
+    built.check_writers(&xml, !t.tag_none)?;
     let decoded = match built.decode_like(&xml) {
         Ok(d) => d,
         Err(e) => {
